@@ -311,3 +311,13 @@ Ltac open_box H :=
          | context [match ?l with [] => _ | _ :: _ => _ end] =>
              is_var l; destruct l; cbn [tbox vbox] in H; try (exfalso; tauto)
          end.
+
+(* split a box / closeness goal into its atomic goals `lo <= e <= hi` / `Rabs (e - v) <= tol`
+   (kept as ONE goal each, so that `interval` evaluates e once) *)
+Ltac box_goals tac :=
+  lazymatch goal with
+  | |- True => exact I
+  | |- (?a <= ?x /\ ?x <= ?b) => tac
+  | |- Rabs _ <= _ => tac
+  | |- _ /\ _ => split; box_goals tac
+  end.
